@@ -264,10 +264,93 @@ def history(binpath, seed, sh):
     return res
 
 
+ALIAS_NAMES = [("lib", "lib64"), ("lib64", "lib"), ("a", "b"), ("b", "a"), ("out", "out.d"), ("pkg", "pkg-current"),
+               ("zz", "aa"), ("data", "current"), ("current", "data"), ("m", "n"), ("n", "m"), ("x1", "x2"),
+               ("target", "latest"), ("v1.0", "stable"), ("stable", "v1.0"), ("Dir", "dir")]
+
+
+def enum_order(binpath, seed, sh):
+    """directory enumeration order: an inspection over a working directory in which one directory is also reachable
+    through a symlink (both names are recorded, C18), with a REQUIRE rule on one of the two names.  The same shape is
+    verified under many pairs of names (a hashed directory index orders entries by name), with the two entries created
+    in either order, in the scratch directory and - where available - on a tmpfs (which enumerates by creation time).
+    Same shape => one verdict; identical names and contents in another creation order => identical inputs."""
+    import os
+    import shutil
+    rng = common.rng_for(seed, PROP, 7000 + sh)
+    W = scen.World(binpath)
+    res = common.Result()
+    fname = rng.choice(["libfoo.so", "f.txt", "x.bin"])
+    require_alias = rng.choice([True, False])
+    reqs, plans = [], []
+    for real, link in ALIAS_NAMES:
+        req = f"{link if require_alias else real}/{fname}"
+        insp = scen.mk_inspection("check", ["true"], [["REQUIRE", req], ["ALLOW", "*"]], [["REQUIRE", req], ["ALLOW", "*"]])
+        layout = scen.mk_layout(W, ["ed4"], [scen.mk_step("build", 1, [W.kid("ed4")], [], [["ALLOW", "*"]], [["ALLOW", "*"]])], [insp])
+        plans.append((real, link, len(reqs)))
+        reqs.append((layout, ["ed0"], "new"))
+        reqs.append((pipeline.leaf_link("build", 0), ["ed4"], "new"))
+    wires = scen.sign_all(binpath, reqs, nproc=1)
+    shm = f"/dev/shm/itv-c13-{os.getpid()}-{sh}"
+    try:
+        os.makedirs(shm, exist_ok=True)
+        roots = [None, shm]
+    except OSError:
+        roots = [None]
+    cases = []
+    try:
+        for real, link, b in plans:
+            files = {f"build.{W.pfx('ed4')}.link": scen.dumps(wires[b + 1])}
+            work = {f"{real}/{fname}": "content\n", link: {"symlink": real}, "other.txt": "x"}
+            for root in roots:
+                for order in ([f"{real}/{fname}", link], [link, f"{real}/{fname}"]):
+                    c = scen.verify_case(wires[b], [[W.kid("ed0"), W.pub("ed0")]], files, work_files=work,
+                                         meta={"kind": "enumeration_order", "names": [real, link], "first": order[0], "tmpfs": root is not None})
+                    c["work_order"] = order
+                    if root:
+                        c["work_root"] = root
+                    cases.append(c)
+        obs = common.run_batch(binpath, cases)
+    finally:
+        shutil.rmtree(shm, ignore_errors=True)
+    verdicts, orders = [], set()
+    for c, o in zip(cases, obs):
+        if scen.harness_failed(o):
+            res.inconclusive.append(f"executor failure: {str(o)[:200]}")
+            return res
+        m = c["meta"]
+        enum = [x for x in o.get("work_enumeration", []) if x in m["names"]]
+        link_first = bool(enum) and enum[0] == m["names"][1]
+        orders.add((m["tmpfs"] and o.get("work_root_used"), link_first))
+        verdicts.append((o["runs"][0]["v"] == "ok", m, link_first, o["runs"][0].get("e")))
+        res.note(["enum", c["layout"][:80], m["first"], m["tmpfs"]], True,
+                 cls=["kind:enumeration_order", "enumeration:symlink_listed_" + ("first" if link_first else "second"),
+                      "enumeration:on_tmpfs" if (m["tmpfs"] and o.get("work_root_used")) else "enumeration:in_scratch"])
+    oks = [v for v in verdicts if v[0]]
+    if oks and len(oks) != len(verdicts):
+        bad = [v for v in verdicts if not v[0]]
+        first_bad = sum(1 for v in bad if v[2])
+        res.violate("verdict-depends-on-directory-enumeration-order",
+                    f"{len(oks)} of {len(verdicts)} verifications of the same working-directory shape succeed and {len(bad)} fail "
+                    f"({first_bad} of the failing ones list the symlink before the directory); e.g. names {bad[0][1]['names']}: {bad[0][3]}",
+                    cases[verdicts.index(bad[0])], {"accepting": [v[1]["names"] for v in oks][:6], "rejecting": [v[1]["names"] for v in bad][:6]}, "one verdict")
+    elif not oks:
+        res.inconclusive.append(f"enumeration-order family: every variant rejected: {verdicts[0][3]}")
+    else:
+        res.classes["accept_seen"] += 1
+    res.extras["enumeration_orders_seen"] = sorted(f"{'tmpfs' if a else 'scratch'}:{'symlink-first' if b else 'directory-first'}" for a, b in orders)
+    return res
+
+
 def main(ctx):
     res = common.Result()
     for p in common.pmap(history, [(ctx.bin, ctx.seed, s) for s in range(4 if not ctx.thorough else common.NPROC)]):
         res.merge(p)
+    seen = set()
+    for p in common.pmap(enum_order, [(ctx.bin, ctx.seed, s) for s in range(2 if not ctx.thorough else common.NPROC)]):
+        seen |= set(p.extras.get("enumeration_orders_seen", []))
+        res.merge(p)
+    res.extras["enumeration_orders_seen"] = sorted(seen)
     n, reps, procs = (20, 24, 2) if not ctx.thorough else (320, 64, 8)
     mx = 0
     for p in common.pmap(shard, [(ctx.bin, ctx.seed, s, n, reps, procs) for s in range(common.NPROC)]):
@@ -284,5 +367,6 @@ def main(ctx):
         assumptions=["fresh HashMap instances get fresh SipHash keys (std RandomState), fresh processes fresh base keys"],
         required=["kind:summary_only", "kind:disallow", "kind:match_next", "kind:delegated_surplus", "kind:require",
                   "kind:multi_party_nested_dissent", "history:delegated:outcomes:1", "history:accept", "history:failing_verifications_in_between",
-                  "iteration_order_varied", "accept_seen"],
+                  "iteration_order_varied", "accept_seen", "kind:enumeration_order", "enumeration:symlink_listed_first",
+                  "enumeration:symlink_listed_second"],
         min_evals=2000)
